@@ -236,6 +236,8 @@ C17_LIMITS = {
     'string-table-255xN': ('limit 13 %d\n', 255, [128, 129, 254, 255]),
     'int-matrix-255xN': ('limit 14 %d\n', 128, [64, 65, 127, 128]),
     'record-size-with-description': ('limit 15 %d\n', 248, [200, 247, 248, 249, 250, 255]),
+    'empty-strings': ('limit 16 %d\n', 255, [1, 254, 255, 256, 300, 1000]),
+    'shape-0xN': ('limit 17 %d\n', 255, [254, 255, 256, 300]),
     'points': ('limit 6 %d\nprate 8\nlimit 8 2\n', 255, [254, 255, 256, 300]),
     'channels': ('limit 7 %d\nprate 8\narate 1\nlimit 8 2\n', 255, [254, 255, 256, 300]),
     'subframes-x-channels': ('limit 7 255\nlimit 12 %d\nlimit 8 1\n', 257, [256, 257, 258, 300]),
